@@ -328,7 +328,13 @@ func c43Replay(t *testing.T, rep *kit.Report, bi int, b kit.V) bool {
 		}
 	}
 	steps := b.Get("steps").List()
-	hasSubmit := false
+	nt := ""
+	for _, s := range steps {
+		if s.Get("a").Str() == "Submit" {
+			nt = kit.Hash(b.X)
+		}
+	}
+	rep.Eval(nt, b.Get("init").X)
 	prefix := func(i int) interface{} {
 		lo := i - 12
 		if lo < 0 {
@@ -364,7 +370,6 @@ func c43Replay(t *testing.T, rep *kit.Report, bi int, b kit.V) bool {
 			want = "GetBlockHeader"
 		case "Submit":
 			want = d.via()
-			hasSubmit = true
 		default: // environment step or a back-off elapsing: nothing to synchronize with
 			w.apply(s.Get("env"))
 			continue
@@ -464,11 +469,6 @@ func c43Replay(t *testing.T, rep *kit.Report, bi int, b kit.V) bool {
 		}
 		q.reply <- c43Reply{err: errC43Shutdown}
 	}
-	nt := ""
-	if hasSubmit {
-		nt = kit.Hash(b.X)
-	}
-	rep.Eval(nt, b.Get("init").X)
 	return stop()
 }
 
